@@ -81,6 +81,27 @@ def replay(ctx, binp, runs, label, timeout="2s"):
     res["history_file"] = out + ".history.ndjson"
     res["runs_file"] = runs
     ctx.replayed += res["behaviours"]
+    mms = res.get("mismatches") or []
+    if mms and not label.startswith("solo"):
+        # a deviation counts only when it reproduces alone, after the parallel replay has finished (the replay
+        # is timing-sensitive under load: parked goroutines are recognised by waiting)
+        lines = open(runs).read().splitlines()
+        kept = []
+        for j, mm in enumerate(mms[:8]):
+            one = os.path.join(ctx.scratch, "solo-%s-%d.ndjson" % (label, j))
+            open(one, "w").write(lines[mm["index"]] + "\n")
+            so = os.path.join(ctx.scratch, "solo-%s-%d.json" % (label, j))
+            ctx.run([binp, "replay", "-in", one, "-out", so, "-timeout", "4s", "-workers", "1"])
+            again = (json.load(open(so)).get("mismatches") or [])
+            if again and again[0]["step"] == mm["step"] and again[0]["field"] == mm["field"]:
+                again[0]["index"] = mm["index"]
+                kept.append(again[0])
+            else:
+                res["unconfirmed"] = res.get("unconfirmed", 0) + 1
+                ctx.log("deviation at step %d (%s, field %s) did not reproduce when replayed alone: not counted" % (mm["step"], mm["action"], mm["field"]))
+        if len(mms) > 8:
+            ctx.log("%d further deviations of this batch were not re-examined" % (len(mms) - 8))
+        res["mismatches"] = kept
     ctx.log("replayed %d behaviours (%d steps) [%s]: %d mismatches, %d unconfirmed" %
             (res["behaviours"], res["steps"], label, len(res.get("mismatches") or []), res.get("unconfirmed", 0)))
     return res
@@ -508,8 +529,9 @@ def run(ctx, pid):
         "known findings (known-findings.json) are guarded in the invariants by history flags set at their trigger",
     ]
     # 1. exhaustive model checking of the closed system, this property's invariants
-    # a: 2 terms, 2 writes, no faults; f: 2 terms, 1 write, one crash and one stream reset; b: 3 terms
-    cfgs = ["shard-quick-a.cfg", "shard-quick-f.cfg"] if quick else ["shard-quick-a.cfg", "shard-quick-f.cfg", "shard-quick-b.cfg", "shard-thorough.cfg"]
+    # a: 2 terms, 2 writes, no faults; f: 2 terms, 1 write, one crash and one stream reset; b: 3 terms;
+    # thorough-f: 2 terms, 2 writes, one crash and one reset (6.75 M distinct states, 7.5 min at 12 workers)
+    cfgs = ["shard-quick-a.cfg", "shard-quick-f.cfg"] if quick else ["shard-quick-a.cfg", "shard-quick-f.cfg", "shard-quick-b.cfg", "shard-thorough.cfg", "shard-thorough-f.cfg"]
     for c in cfgs:
         cfg = make_cfg(ctx, c, INVARIANTS[pid], name=c)
         r = ctx.tlc("OxiaShardMC", cfg, label=c.replace(".cfg", ""), timeout=max(300, ctx.left()))
